@@ -250,6 +250,18 @@ def encode_replace(text):
             out[cs] = (back == text, "%r.encode(%r, 'htmlentityreplace') = %r decodes to %r" % (text, cs, b, back))
         except Exception as e:
             out[cs] = (False, "%r.encode(%r, 'htmlentityreplace') raised %s: %s" % (text, cs, type(e).__name__, e))
+    # the same through a template with several writes (text, expression, text, expression), also for charsets whose encoder
+    # starts its output with a signature
+    from mako.template import Template
+    for cs in ("ascii", "latin-1", "utf-16", "utf-8-sig", "utf-32", "utf-16-le"):
+        try:
+            b = Template("<p>${x}</p>${x}", output_encoding=cs, encoding_errors="htmlentityreplace").render(x=text)
+            back = ref_unescape(b.decode(cs))
+            want = "<p>" + text + "</p>" + text
+            if back != want:
+                out["render:" + cs] = (False, "rendered to %s: %r decodes to %r, written %r" % (cs, b, back, want))
+        except Exception as e:
+            out["render:" + cs] = (False, "rendering to %s raised %s: %s" % (cs, type(e).__name__, e))
     return out
 
 
